@@ -1,6 +1,7 @@
 """C01 — every accepted derive request expands to code that compiles; every documented form is accepted."""
 import importlib
 import itertools
+import re
 
 from ..core import Case, guard, rt_run, log, shash
 
@@ -236,7 +237,15 @@ def check(v, tier):
         if r.status == 'ok':
             v.cov['traces_validated_against_impl'] += 1
             # comparing fn pointers warns for #[derive(PartialEq)] of the standard library as well: it is a property of the user's field type
-            gw = [d for d in r.warnings() if d['kind'] == 'generated' and d['code'] != 'unpredictable_function_pointer_comparisons']
+            # a derive may give its bindings the span of a user token (format_ident! with the field's span): such a diagnostic points into the user's text although
+            # the name it complains about exists nowhere in it - it is about generated code
+            def about_generated(d):
+                if d['kind'] == 'generated':
+                    return True
+                names = re.findall(r'`([A-Za-z_][A-Za-z0-9_]*)`', d['msg'])
+                return d['kind'] == 'hand' and d['code'] in ('non_snake_case', 'non_camel_case_types', 'non_upper_case_globals', 'unused_variables', 'unused_mut', 'unused_assignments') \
+                    and bool(names) and not re.search(r'(?<![A-Za-z0-9_])%s(?![A-Za-z0-9_])' % re.escape(names[0]), c.body)
+            gw = [d for d in r.warnings() if about_generated(d) and d['code'] != 'unpredictable_function_pointer_comparisons']
             if gw:
                 v.violation(c, 'the generated code compiles with warnings: %s' % '; '.join((d['code'] or '') + ' ' + d['msg'][:200] for d in gw[:2]))
             else:
